@@ -47,7 +47,7 @@ func anchorCoverage(e *Engine, prop string) map[string]interface{} {
 			continue
 		}
 		pkgPath := e.module + "/" + filepath.ToSlash(filepath.Dir(rel))
-		var this, other, trusted, none []string
+		var this, other, trusted, none, closures []string
 		for _, d := range af.Decls {
 			fd, ok := d.(*ast.FuncDecl)
 			if !ok || fd.Body == nil {
@@ -77,6 +77,19 @@ func anchorCoverage(e *Engine, prop string) map[string]interface{} {
 					fc = c
 				}
 			}
+			if fc == nil {
+				// a function that only builds closures (decorators, worker fan-outs): are its closures under contract?
+				for _, c := range e.contracts.Funcs {
+					if !c.Extern && c.PkgPath == pkgPath && strings.HasPrefix(c.Name, name+"$") && strings.TrimPrefix(c.RecvType, "*") == recv && !c.Trusted {
+						closures = append(closures, disp)
+						fc = c
+						break
+					}
+				}
+				if fc != nil {
+					continue
+				}
+			}
 			switch {
 			case fc == nil:
 				none = append(none, disp)
@@ -92,6 +105,7 @@ func anchorCoverage(e *Engine, prop string) map[string]interface{} {
 		sort.Strings(other)
 		sort.Strings(trusted)
 		sort.Strings(none)
+		sort.Strings(closures)
 		totalNo += len(none)
 		totalThis += len(this)
 		out[rel] = map[string]interface{}{
@@ -99,6 +113,7 @@ func anchorCoverage(e *Engine, prop string) map[string]interface{} {
 			"verified_contract_serving_other_properties":  other,
 			"trusted_stub_body_not_verified":              trusted,
 			"no_contract_not_verified":                    none,
+			"only_its_closures_under_contract":            closures,
 		}
 	}
 	out["_summary"] = map[string]int{"functions_with_contract_for_this_property": totalThis, "functions_without_contract": totalNo}
